@@ -273,7 +273,7 @@ def main():
             dict(
                 property_id=pid,
                 quick_cmd=f"/venv/bin/python run_check.py {pid} --tier quick",
-                thorough_cmd=f"/venv/bin/python run_check.py {pid} --tier thorough",
+                thorough_cmd=f"/venv/bin/python run_check.py {pid} --tier thorough --cap 1500",
                 evidence_file=f"/verif/evidence/{pid}.json",
                 replay_cmd_template=f"/venv/bin/python run_check.py {pid} --replay {{path}}",
                 engine="mc",
